@@ -24,6 +24,7 @@ AttrPaths(at) == { FW \o ".attributes." \o f : f \in
                        "max_fee", "max_fee.denom", "max_fee.amount"}
      [] OTHER -> {"recipient"} }
 PathsFor(t) == CommonPaths \cup AttrPaths(t.fw.at) \cup (IF t.acts = <<>> THEN {PA} ELSE ActionPaths)
+               \cup (IF t.acts = <<>> THEN {"x", "orbiter.x", FW \o ".x", FW \o ".attributes.x"} ELSE UnknownPaths)
 Muts == IF ParseSet = "full" THEN Mutations ELSE Mutations \ {"longstr", "deepobj", "dupsame", "numstr"}
 Templates == IF ParseSet = "full" THEN {T_CCTP, T_HYP, T_INT, T_INTF} ELSE {T_CCTP, T_HYP, T_INT}
 MutGrid == UNION { { [t EXCEPT !.mk = "MUT", !.aid = p, !.op = m] : p \in PathsFor(t), m \in Muts } : t \in Templates }
@@ -49,7 +50,7 @@ Extremes == { [Xfer(0, b, 1000, FwINT("U"), <<>>) EXCEPT !.amtc = c] : b \in {"u
 
 MCAlphabet == MutGrid \cup RandomGrid \cup Extremes
 SmallAlphabet == MCAlphabet
-StepProps == [][ Prop_C14(last') /\ Prop_C01(last') /\ Prop_C03(last') ]_vars
+StepProps == [][ Prop_C14(last') /\ Prop_C15(last') /\ Prop_C01(last') /\ Prop_C03(last') ]_vars
 Depth == TLCGet("level") <= MaxDepth
 View == st
 =============================================================================
